@@ -38,7 +38,7 @@ ASSUMPTIONS = [
     "clustering falls back to it are a C06 matter)",
 ]
 PROFILE = {
-    "quick": dict(examples=1000, shards=16, budget_s=80),
+    "quick": dict(examples=1600, shards=16, budget_s=80),
     "thorough": dict(examples=6000, shards=16, budget_s=1100),
 }
 
